@@ -39,8 +39,9 @@ pub trait Engine {
     fn run(&self, prop: &str, case: &Self::Case) -> CaseOut;
     fn encode(&self, case: &Self::Case) -> String;
     fn decode(&self, s: &str) -> Self::Case;
-    /// fixed regression cases run before the random ones (encoded)
-    fn regressions(&self, _prop: &str) -> Vec<String> {
+    /// fixed regression cases run before the random ones: (encoded case, generation
+    /// profile it was found under if that is not the property's own)
+    fn regressions(&self, _prop: &str) -> Vec<(String, Option<String>)> {
         Vec::new()
     }
 }
@@ -209,9 +210,14 @@ pub fn run_worker<E: Engine>(
     // decoded with the quick profile whatever tier is running
     std::env::set_var("VERIF_CASE_TIER", "quick");
     if worker == 0 {
-        for enc in eng.regressions(prop) {
+        for (enc, profile) in eng.regressions(prop) {
             let case = eng.decode(&enc);
-            if eval(&case).is_err() {
+            match &profile {
+                Some(p) => std::env::set_var("VERIF_CASE_PROFILE", p),
+                None => std::env::remove_var("VERIF_CASE_PROFILE"),
+            }
+            let r = eval(&case);
+            if r.is_err() {
                 let o = eng.run(prop, &case);
                 failure = Some(json!({
                     "property": prop,
@@ -219,6 +225,7 @@ pub fn run_worker<E: Engine>(
                     "case": enc,
                     "from": "regression",
                     "tier": "quick",
+                    "profile": profile,
                     "violations": o.viols.iter().map(|v| json!({"predicate": v.0, "signature": v.1, "detail": v.2})).collect::<Vec<_>>(),
                     "sample": o.sample,
                 }));
@@ -228,6 +235,9 @@ pub fn run_worker<E: Engine>(
     }
 
     std::env::set_var("VERIF_CASE_TIER", tier);
+    if failure.is_none() {
+        std::env::remove_var("VERIF_CASE_PROFILE");
+    }
     if failure.is_none() && cases > 0 {
         let cfg = Config {
             cases,
